@@ -337,6 +337,7 @@ def run(ctx):
     finally:
         unpatch(saved)
     real_links_pass(ctx, res, tmp)
+    genuine_links_pass(ctx, res, tmp)
     cmp_n, mism, errs = funcases.run(ctx, "c16", certs.HEADER, "check_ccase", terms, descs, shard=60)
     res["compared"] = cmp_n
     res["mismatches"] += mism
@@ -385,6 +386,35 @@ def real_links_pass(ctx, res, tmp):
                                           "what": "validation with the real link checks raised %s instead of "
                                                   "giving a verdict for target %r (element class %s)"
                                                   % (r[1], tg, kind), "doc": doc})
+
+
+def genuine_links_pass(ctx, res, tmp):
+    """genuinely signed version-1 chains and each of their single-point alterations (corrupted fields, foreign
+    keys, tweaks removed / added, elements re-parented under validly signed ancestors whose value is not a key)
+    through the REAL link checks: every loaded document must get a verdict for every target"""
+    from admin.certificate import HSMCertificateRoot
+    rng = ctx["rng"]
+    n = 2 if ctx["tier"] == "quick" else 25
+    for i in range(n):
+        doc, keys = certs.v1_chain(rng)
+        for name, d, root_pub in [("genuine", doc, keys["root"].pub())] + certs.v1_corruptions(rng, doc, keys):
+            res["evaluations"] += 1
+            try:
+                obs = with_budget(5.0, lambda: certs.impl_load_validate(
+                    d, lambda: HSMCertificateRoot(root_pub.hex()), tmp, with_resave=False))
+            except Hang:
+                res["violations"].append({"key": "C16:hang", "what": "loading / validating a genuinely signed chain "
+                                          "(%s) did not terminate within 5 s" % name, "doc": d})
+                continue
+            if not obs["loaded"]:
+                continue
+            cert = obs.pop("cert")
+            for tg, r in zip(cert._targets, obs["results"]):
+                if r[0] == "raises":
+                    res["violations"].append({"key": "C16:no-verdict-genuine:%s:%s" % (name, r[1]),
+                                              "what": "validation of a genuinely signed chain altered by %s raised %s "
+                                                      "instead of giving a verdict for target %r" % (name, r[1], tg),
+                                              "doc": d})
 
 
 def comparable(rs):
